@@ -316,10 +316,10 @@ class LS(List[T]):
 T_co = TypeVar("T_co", covariant=True)
 
 
-class Pops(Protocol[T_co]):
+class Pops(Protocol[T]):
     """Structural and generic: list[int] is a Pops[int] (list.pop returns the element type)."""
 
-    def pop(self) -> T_co: ...
+    def pop(self) -> T: ...
 
 
 class NodeP(Protocol):
